@@ -10,6 +10,8 @@ pub mod c08;
 pub mod c11;
 pub mod c12;
 pub mod c14;
+pub mod c15;
+pub mod c16;
 pub mod c17;
 pub mod c36;
 
@@ -25,6 +27,8 @@ pub fn run(ctx: &Ctx, id: &str) -> bool {
         "C11" => c11::run(ctx),
         "C12" => c12::run(ctx),
         "C14" => c14::run(ctx),
+        "C15" => c15::run(ctx),
+        "C16" => c16::run(ctx),
         "C17" => c17::run(ctx),
         "C36" => c36::run(ctx),
         _ => return false,
